@@ -58,6 +58,15 @@ Proof.
   - destruct tk; cbn [fst snd]; [apply IH|discriminate].
 Qed.
 
+Lemma end_task_Keep m' m how s tk : Keep m' s (end_task m how s tk).
+Proof. unfold end_task. eapply Keep_trans; [|apply Keep_say; reflexivity]. reflexivity. Qed.
+
+Lemma fold_end_task_Keep m' m : forall l s, Keep m' s (fold_left (end_task m 0) l s).
+Proof. induction l as [|tk l IH]; intros s; cbn [fold_left]; [reflexivity|]. eapply Keep_trans; [apply end_task_Keep|apply IH]. Qed.
+
+Lemma spawn_items_p0 m' m i ps : p0s m' (spawn_items m i ps) = [].
+Proof. unfold spawn_items. induction (combine (seq 0 (length ps)) ps) as [|x l IH]; [reflexivity|exact IH]. Qed.
+
 Lemma poll1_Keep m' k now m s tk : Keep m' s (poll1 k now m s tk).
 Proof.
   unfold poll1.
@@ -66,7 +75,7 @@ Proof.
   cbn [fst] in H.
   assert (H0 : Keep m' s s1).
   { eapply Keep_trans; [|apply H; left; lia]. apply Keep_say. destruct (tk_new tk); reflexivity. }
-  destruct r; exact H0.
+  destruct r; try exact H0; (eapply Keep_trans; [exact H0|apply end_task_Keep]).
 Qed.
 
 Lemma poll_ready_Keep m' k now m s : Keep m' s (poll_ready k now m s).
@@ -90,19 +99,19 @@ Proof.
     destruct (run_prog false k now m 0 p s0) as [s2 r] end.
   cbn [fst snd] in *.
   assert (H0 : forall s', Keep m' s2 s' -> r <> RPanic -> p0s m' (x_log s') = p0s m' (x_log s) ++ []).
-  { intros s' K Hr. rewrite app_nil_r, K, HK by (right; exact Hr). cbn [on_w say x_log]. rewrite p0s_app. unfold p0s at 2. cbn [filter is_p0].
-    rewrite app_nil_r. reflexivity. }
+  { intros s' K Hr. rewrite app_nil_r, K, HK by (right; exact Hr). cbn [on_w say say_all x_log]. rewrite !p0s_app, spawn_items_p0. unfold p0s at 2. cbn [filter is_p0].
+    rewrite !app_nil_r. reflexivity. }
   destruct r; cbn [fst snd andb].
   - apply H0; [apply poll_ready_Keep|discriminate].
-  - rewrite (HP eq_refl). cbn [on_w say x_log]. rewrite p0s_app. unfold p0s at 2. cbn [filter is_p0]. rewrite app_nil_r. reflexivity.
-  - apply H0; [reflexivity|discriminate].
+  - rewrite (HP eq_refl). cbn [on_w say say_all x_log]. rewrite !p0s_app, spawn_items_p0. unfold p0s at 2. cbn [filter is_p0]. rewrite !app_nil_r. reflexivity.
+  - apply H0; [|discriminate]. eapply Keep_trans; [|apply fold_end_task_Keep]. reflexivity.
   - apply H0; [apply poll_ready_Keep|discriminate].
 Qed.
 
 (* ---- the callbacks: error list and active flag follow the panic records ---- *)
-Definition perr (sc : script) (i : item) : list (bool * N) :=
-  match i with IPanic m 0 c => if c then [] else [(false, m)] | _ => [] end.
-Definition perrs (sc : script) (l : list item) : list (bool * N) := flat_map (perr sc) l.
+Definition perr (sc : script) (i : item) : list (N * N) :=
+  match i with IPanic m 0 c => if c then [] else [(0, m)] | _ => [] end.
+Definition perrs (sc : script) (l : list item) : list (N * N) := flat_map (perr sc) l.
 
 Lemma perrs_app sc a b : perrs sc (a ++ b) = perrs sc a ++ perrs sc b.
 Proof. apply flat_map_app. Qed.
@@ -119,7 +128,7 @@ Qed.
 
 (* [PInv e0 s]: the error list is e0 followed by the uncaught callback panics of the log, and
    the module is inactive once its callback has panicked *)
-Record PInv (sc : script) (m : N) (e0 : list (bool * N)) (s : xs) : Prop := {
+Record PInv (sc : script) (m : N) (e0 : list (N * N)) (s : xs) : Prop := {
   pi_err : w_err (x_w s) = e0 ++ perrs sc (p0s m (x_log s));
   pi_dead : p0s m (x_log s) <> [] -> active (w_mod (x_w s) m) = false }.
 
@@ -433,64 +442,3 @@ Proof.
   - pose proof (process_own sc (set_fes w f) t ev) as Ho. rewrite Em in Ho. rewrite Ho. reflexivity.
 Qed.
 
-(* ---- C13 errors_exact ---- *)
-Lemma end_rec_err sc now m w :
-  exists j, w_err (fst (end_rec sc now m w)) = w_err w ++ perrs sc (e_items (snd (end_rec sc now m w))) ++ repeat (true, m) j.
-Proof.
-  unfold end_rec. cbn [fst snd e_items]. rewrite deactivate_err. unfold at_sim_end.
-  set (s0 := {| x_w := activate now m w; x_log := [] |}).
-  assert (H0 : PInv sc m (w_err w) s0).
-  { constructor; cbn [s0 x_w x_log p0s filter perrs flat_map]; [rewrite app_nil_r; apply activate_err|intros H; contradiction]. }
-  pose proof (exec_catch_PInv sc (nmods sc) now m CbEnd [] (c_end (cfg sc m)) (w_err w) s0 H0) as G.
-  pose proof (exec_LogExt (nmods sc) now m CbEnd [] (c_end (cfg sc m)) s0) as (lu & Hlu & Uu).
-  destruct (exec (nmods sc) now m CbEnd [] (c_end (cfg sc m)) s0) as [s1 pn]. cbn [fst] in Hlu. cbn [x_log s0 app] in Hlu.
-  destruct (catch (cfg sc m) m pn (x_w s1)) as [w2 e2] eqn:Ec. cbn [fst] in G. destruct G as [pe _]. cbn [x_w x_log] in pe.
-  assert (Hown : forall l, Forall (Usr m) l -> perrs sc l = perrs sc (p0s m l)).
-  { intros l Hl. apply perrs_p0. intros i Hi. rewrite Forall_forall in Hl. apply (Hl i Hi). }
-  destruct e2.
-  - exists 0%nat. cbn [x_w x_log repeat]. rewrite app_nil_r, pe, Hlu, <- (Hown lu Uu). reflexivity.
-  - set (s2 := {| x_w := w2; x_log := x_log s1 |}).
-    pose proof (poll_ready_Keep m (nmods sc) now m s2) as K. pose proof (poll_ready_Fr (nmods sc) now m s2) as HF.
-    pose proof (poll_ready_LogExt (nmods sc) now m s2) as (l2 & Hl2 & U2).
-    exists (N.to_nat (tfin (w_mod (x_w (poll_ready (nmods sc) now m s2)) m))).
-    cbn [on_w x_w x_log w_err set_err]. rewrite (fr_err _ _ _ HF). cbn [x_w s2]. rewrite pe, <- app_assoc. f_equal. f_equal.
-    rewrite Hl2. cbn [x_log s2]. rewrite Hlu, (Hown (lu ++ l2)) by (apply Forall_app; auto).
-    unfold Keep in K. rewrite Hl2 in K. cbn [x_log s2] in K. rewrite Hlu in K. rewrite K. reflexivity.
-Qed.
-
-Lemma end_seq_err sc now : forall ms w,
-  filter (fun e => negb (fst e)) (w_err (fst (end_seq sc now ms w))) =
-  filter (fun e => negb (fst e)) (w_err w) ++ perrs sc (items (snd (end_seq sc now ms w))).
-Proof.
-  assert (Hp : forall l, filter (fun e : bool * N => negb (fst e)) (perrs sc l) = perrs sc l).
-  { induction l as [|i l IH]; [reflexivity|]. unfold perrs in *. cbn [flat_map]. rewrite filter_app, IH.
-    destruct i as [| | | | | |m0 who cc| | | | | |]; try reflexivity. destruct who; [|reflexivity]. cbn [perr].
-    destruct cc; reflexivity. }
-  assert (Hr : forall m j, filter (fun e : bool * N => negb (fst e)) (repeat (true, m) j) = []).
-  { intros m j. induction j as [|j IH]; [reflexivity|exact IH]. }
-  induction ms as [|m ms IH]; intros w; cbn [end_seq]; [cbn; rewrite app_nil_r; reflexivity|].
-  destruct (end_seq sc now ms (fst (end_rec sc now m w))) as [w2 es] eqn:Es. cbn [fst snd items flat_map].
-  replace w2 with (fst (end_seq sc now ms (fst (end_rec sc now m w)))) by (rewrite Es; reflexivity).
-  replace es with (snd (end_seq sc now ms (fst (end_rec sc now m w)))) by (rewrite Es; reflexivity).
-  rewrite IH. destruct (end_rec_err sc now m w) as (j & ->).
-  rewrite !filter_app, Hp, Hr, app_nil_r, perrs_app, <- app_assoc. reflexivity.
-Qed.
-
-(* The PanicError entries of the error returned by the run are exactly the callback panics of
-   modules whose stereotype does not catch, one entry per panic, in the order of the panics.
-   (The other entries are JoinErrors for panicked tasks, added by at_sim_end.) *)
-Theorem errors_exact sc :
-  filter (fun e => negb (fst e)) (r_err (run_script sc)) = perrs sc (items (trace sc)).
-Proof.
-  assert (Hp : forall l, filter (fun e : bool * N => negb (fst e)) (perrs sc l) = perrs sc l).
-  { induction l as [|i l IH]; [reflexivity|]. unfold perrs in *. cbn [flat_map]. rewrite filter_app, IH.
-    destruct i as [| | | | | |m0 who cc| | | | | |]; try reflexivity. destruct who; [|reflexivity]. cbn [perr].
-    destruct cc; reflexivity. }
-  destruct (run_decomp sc) as (w & tr & HG & [(_ & _ & now & Et & Ee)|(_ & Et & Ee)]); destruct (gen_PI sc w tr HG) as [He _].
-  - rewrite Ee, Et, end_seq_err, He, Hp. unfold items. rewrite flat_map_app, perrs_app. reflexivity.
-  - rewrite Ee, Et, He, Hp. reflexivity.
-Qed.
-
-(* run() succeeds only if no callback of a non-catching module panicked *)
-Corollary ok_only_if_no_uncaught_panic sc : r_err (run_script sc) = [] -> perrs sc (items (trace sc)) = [].
-Proof. intros H. rewrite <- errors_exact, H. reflexivity. Qed.
